@@ -40,6 +40,7 @@ def unsent (posts : Nat) : Bool := decide (posts = 0)
 /-- this answer is the server's real response to the call / the acceptance of the notification -/
 def acceptedAns (k : Kind) : Ans → Bool
   | .ok p true =>
+    p != .strictRefused &&
     (match k with
      | .notif => true
      | .call => p == .json || p == .sse)
@@ -51,14 +52,13 @@ def rejectionAns (cancel : Bool) (k : Kind) : Ans → Bool
   | .terr => true
   | .hang => cancel
   | .st c rpc => rpc || isTransient c
-  | .ok .jsonHang true => cancel && k == .call   -- abandoned by the caller while the body was in flight
+  | .ok p true => cancel && bodyWaits k (.ok p true)   -- abandoned by the caller while the body / the stream was pending
   | .ok _ _ => false
 
 /-- this answer leaves the request waiting: no headers, or (a call) a JSON body that does not come -/
 def waitingAns (k : Kind) : Ans → Bool
   | .hang => true
-  | .ok .jsonHang true => k == .call
-  | _ => false
+  | a => bodyWaits k a
 
 /-- this answer says that the session is gone -/
 def goneAns : Ans → Bool
